@@ -423,7 +423,11 @@ class AtomicSaver:
 
         fd = os.open(self.part_path, self.open_flags, file_perms)
         set_cloexec(fd)
-        self.part_file = os.fdopen(fd, self.mode, self.buffering)
+        try:
+            self.part_file = os.fdopen(fd, self.mode, self.buffering)
+        except Exception:
+            self._rm_part_file()  # just created above, nothing to recover
+            raise
 
         # if default perms are overridden by the user or previous dest_path
         # chmod away the effects of the umask
@@ -431,7 +435,10 @@ class AtomicSaver:
             try:
                 os.chmod(self.part_path, file_perms)
             except OSError:
-                self.part_file.close()
+                try:
+                    self.part_file.close()
+                finally:
+                    self._rm_part_file()
                 raise
         return
 
